@@ -802,8 +802,8 @@ def random_expr(rng, names: List[str], depth: int, want_double: bool = True):
         if op == "Pow":
             return ("bin", "Pow", l, ("i", rng.choice([2, 3])))
         rr = random_expr(rng, names, depth - 1)
-        if rng.random() < 0.06 and l[0] == "call":
-            rr = ("m", "xF")
+        if rng.random() < 0.06 and l[0] == "call" and l[1] not in ("ilogb", "abs"):
+            rr = ("m", "xF")  # a float operand, only beside a double-valued call (a float-typed result would select the single-precision overloads)
         return ("bin", op, l, rr)
     return ("un", rng.choice(["USub", "USub", "UAdd"]), random_expr(rng, names, depth - 1))
 
@@ -983,7 +983,8 @@ def numeric_failure(r) -> Optional[str]:
     g = n["got"]
     if isinstance(g, dict):
         return "the emitted expression does not compile / run: " + g.get("compile", "?")
-    tol = 1e-9 if size(r["expr"]) <= 8 else 1e-6
+    has_float = any(l[1] == "float" for l in leaves_of(r["expr"], "."))
+    tol = 1e-6 if has_float or size(r["expr"]) > 8 else 1e-9  # single-precision intermediates are not this oracle's business
     for s, want, have in zip(n["samples"], n["expected"], g):
         if not close(want, have, tol):
             return f"at (pt, eta, phi) = {s} the generated C++ gives {have!r}, the function of that name gives {want!r}"
